@@ -8,7 +8,7 @@ from . import iteralg
 BUCKETS = ['true_permits', 'true_forbids', 'false_permits', 'false_forbids', 'residual_permits', 'residual_forbids']
 FIELDS = ('satisfied_permits', 'false_permits', 'residual_permits', 'satisfied_forbids', 'false_forbids', 'residual_forbids', 'errors',
           'true_expr', 'false_expr', 'request')
-COND = {'true': 'true', 'false': 'false', 'error': '(1 + 9223372036854775807) > 0', 'residual': 'unknown("u")'}
+COND = {'true': 'true', 'false': 'false', 'error': '(1 + 9223372036854775807) > 0', 'residual': 'unknown("u")', 'nonbool': '1 + 1'}
 
 
 def policy_text(pols):
@@ -20,7 +20,7 @@ def expected_response(pols):
     ids = [f'policy{i}' for i in range(len(pols))]
     tp = [i for i, (e, o) in zip(ids, pols) if e == 'permit' and o == 'true']
     tf = [i for i, (e, o) in zip(ids, pols) if e == 'forbid' and o == 'true']
-    errs = [i for i, (e, o) in zip(ids, pols) if o in ('error', 'residual')]
+    errs = [i for i, (e, o) in zip(ids, pols) if o in ('error', 'residual', 'nonbool')]
     return {'decision': 'Allow' if tp and not tf else 'Deny', 'reasons': sorted(tf if tf else tp), 'errors': sorted(errs)}
 
 
@@ -141,6 +141,37 @@ def loop_step(ctx):
     ctx.decide('authorizer-loop/paths-cover-all-outcomes', [MORE, z3.Not(z3.Or([z3.And(o.pc) for o in outs if o.kind.startswith('stop')]))], ex=ex)
     for out, nm in ((0, 'value'), (1, 'residual'), (2, 'error')):
         ctx.decide(f'authorizer-loop/witness:{nm}', [MORE, OUT == out, z3.Or([z3.And(o.pc) for o in outs if o.kind.startswith('stop')])], expect='sat', ex=ex)
+
+
+def loop_prefix(ctx):
+    """from function entry to the loop head: no early exit, the seven vectors start empty, the loop runs over pset.policies()"""
+    P = ctx.prog('core')
+    f = P.method('authorizer.rs', 'is_authorized_core_internal')
+    ctx.use(f)
+    ex = ctx.new_exec('core')
+    head = f.find_block(r'as Iterator>::next\(')
+    ex.stub(r'Vec::<.*>::new$', lambda ex, st, c, A: Agg('struct', '~Vec::new', None, []), 'Vec::new (empty-vector marker)')
+    ex.stub(r'PolicySet::policies$', lambda ex, st, c, A: Agg('struct', '~policies', None, [A[0]]), 'PolicySet::policies (term)')
+    ex.stub(r'as IntoIterator>::into_iter$', lambda ex, st, c, A: A[0], 'IntoIterator::into_iter (identity)')
+    args = ex.args_havoc(f)
+    outs = ex.run(f, args, stop=(head,))
+    ctx.absorb(ex)
+    dbg = f.debug
+    good = len(outs) >= 1
+    for o in outs:
+        if not o.kind.startswith('stop'):
+            good = False
+            continue
+        env = o.st.frames[ex.root_fid]
+        for nm in BUCKETS + ['errors']:
+            v = env.get(dbg[nm])
+            good = good and isinstance(v, Agg) and v.name == '~Vec::new'
+        it = env.get(dbg['iter'])
+        good = good and isinstance(it, Agg) and it.name == '~policies' and it.fields[0] is args[3]
+    ctx.decide('authorizer-loop/prefix: entry reaches the loop with seven empty vectors over pset.policies(), no early exit',
+               [z3.Not(z3.BoolVal(bool(good)))], ex=ex, sample={'outcomes': [o.kind for o in outs]},
+               on_sat=lambda m: replay_policies(ctx, 'authorizer-loop/prefix', 'authorizer.rs: code before the bucket loop',
+                                                [('forbid', 'true'), ('forbid', 'error')], 'the function does not enter the bucket loop with empty buckets over all policies'))
 
 
 # ---------------------------------------------------------------------------------------------- PartialResponse::new
@@ -308,8 +339,123 @@ def response_from(ctx):
     ctx.decide('Response::from(PartialResponse)/witness:Deny', [z3.Or([z3.And(o.pc) for o in rets if o.val.fields[0].variant == 'Deny'])], expect='sat', ex=ex)
 
 
+def policy_evaluation(ctx):
+    """Evaluator::{partial_evaluate, evaluate, interpret}: how the value of a policy condition becomes satisfied / not / error"""
+    from .common import SymValue
+    from .c02 import install_value_stubs
+    P = ctx.prog('core')
+    for meth, nargs in (('partial_evaluate', 2), ('evaluate', 2), ('interpret', 3)):
+        f = P.method('evaluator.rs', meth, nargs=nargs, arg0=r'&evaluator::Evaluator')
+        ctx.use(f)
+        ex = ctx.new_exec('core')
+        install_value_stubs(ex)
+        val = SymValue(ex, 'condition_value')
+        resid, everr = Opaque('ast::expr::Expr', 'residual'), Opaque('EvaluationError', 'evalerr')
+        OUT = z3.Int('PI')
+        ex.invariants += [OUT >= 0, OUT <= 2]
+        pol = Opaque('ast::policy::Policy', 'p')
+        ex.stub(r'Policy::condition$', lambda ex, st, c, A: Agg('struct', '~condition', None, [ex.read(st, A[0].fid, A[0].place)]), 'Policy::condition (term)')
+        ex.stub(r'Policy::env$', lambda ex, st, c, A: Agg('struct', '~env', None, [ex.read(st, A[0].fid, A[0].place)]), 'Policy::env (term)')
+        ex.stub(r'Evaluator::<.*>::partial_interpret$',
+                lambda ex, st, c, A: [([OUT == 0], ok(Agg('variant', 'ast::partial_value::PartialValue', 'Value', [val.v]))),
+                                      ([OUT == 1], ok(Agg('variant', 'ast::partial_value::PartialValue', 'Residual', [resid]))), ([OUT == 2], err(everr))],
+                'Evaluator::partial_interpret: arbitrary Ok(Value v) | Ok(Residual e) | Err(e)')
+        ex.stub(r'EvaluationError::non_value$', lambda ex, st, c, A: Agg('struct', 'EvaluationError', None, [A[0]], ('non_value',)), 'EvaluationError::non_value (constructor)')
+        ev = Opaque('evaluator::Evaluator', 'eval')
+        if meth == 'interpret':
+            e_arg, slots = Opaque('ast::expr::Expr', 'e'), Opaque('SlotEnv', 'slots')
+            args, heap = [Ref(0, ('local', 'EV')), Ref(0, ('local', 'E')), Ref(0, ('local', 'S'))], {'EV': ev, 'E': e_arg, 'S': slots}
+        else:
+            args, heap = [Ref(0, ('local', 'EV')), Ref(0, ('local', 'P'))], {'EV': ev, 'P': pol}
+        outs = ex.run(f, args, heap=heap)
+        ctx.absorb(ex)
+        is_bool = val.code == 0
+        for i, o in enumerate(outs):
+            name = f'Evaluator::{meth}/path{i}'
+            if o.kind != 'ret':
+                ctx.decide(name + ':panic', o.pc, kind='panic', ex=ex)
+                continue
+            v = o.val
+            calls = [c for c in o.log if c.tag.startswith('Evaluator::partial_interpret')]
+            wired = len(calls) == 1
+            if wired and meth != 'interpret':
+                a = calls[0].args
+                x1 = ex.read(o.st, a[1].fid, a[1].place) if isinstance(a[1], Ref) else a[1]
+                wired = isinstance(x1, Agg) and x1.name == '~condition' and x1.fields[0].id == pol.id and isinstance(a[2], Agg) and a[2].name == '~env' and a[2].fields[0].id == pol.id
+            claims = [z3.BoolVal(bool(wired))]
+            if v.variant == 'Ok':
+                p0 = v.fields[0]
+                if meth == 'partial_evaluate':
+                    if p0.variant == 'Left':
+                        claims.append(z3.And(OUT == 0, is_bool, p0.fields[0].t == val.b))
+                    else:
+                        claims.append(z3.And(OUT == 1, z3.BoolVal(getattr(p0.fields[0], 'id', None) == resid.id)))
+                elif meth == 'evaluate':
+                    claims.append(z3.And(OUT == 0, is_bool, p0.t == val.b))
+                else:
+                    claims.append(z3.And(OUT == 0, z3.BoolVal(getattr(p0, 'id', None) == val.v.id)))
+            elif v.variant == 'Err':
+                e0 = v.fields[0]
+                if getattr(e0, 'id', None) == everr.id:
+                    claims.append(OUT == 2)
+                elif isinstance(e0, Agg) and e0.fnames == ('type_error',):
+                    # a non-boolean condition value is an error, never "satisfied"
+                    claims.append(z3.And(OUT == 0, z3.Not(is_bool), z3.BoolVal(meth != 'interpret')))
+                elif isinstance(e0, Agg) and e0.fnames == ('non_value',):
+                    claims.append(z3.And(OUT == 1, z3.BoolVal(meth != 'partial_evaluate' and getattr(e0.fields[0], 'id', None) == resid.id)))
+                else:
+                    claims.append(z3.BoolVal(False))
+            else:
+                claims.append(z3.BoolVal(False))
+
+            def on_sat(m, meth=meth):
+                return replay_policies(ctx, f'Evaluator::{meth}', f'evaluator.rs: Evaluator::{meth}', [('permit', 'true'), ('forbid', 'false'), ('permit', 'error'), ('forbid', 'nonbool')],
+                                       'the value of a policy condition is mapped to satisfied / unsatisfied / error wrongly')
+            ctx.decide(name, o.pc + [z3.Not(z3.And(claims))], ex=ex, on_sat=on_sat,
+                       sample={'path_condition': [str(c)[:80] for c in o.pc][:5], 'returns': repr(v)[:160]} if i < 2 else None)
+        rets = [o for o in outs if o.kind == 'ret']
+        ctx.decide(f'Evaluator::{meth}/paths-cover', [z3.Not(z3.Or([z3.And(o.pc) if o.pc else z3.BoolVal(True) for o in rets]))], ex=ex)
+        ctx.decide(f'Evaluator::{meth}/witness', [z3.Or([z3.And(o.pc) if o.pc else z3.BoolVal(True) for o in rets if o.val.variant == 'Ok'] or [z3.BoolVal(False)])], expect='sat', ex=ex)
+
+
+def entry_wiring(ctx):
+    """Authorizer::is_authorized = concretize(is_authorized_core(q, pset, entities)); is_authorized_core evaluates with an Evaluator built from the same request and store"""
+    P = ctx.prog('core')
+    f = P.method('authorizer.rs', 'is_authorized', nargs=4)
+    g = P.method('authorizer.rs', 'is_authorized_core', nargs=4)
+    h = P.method('authorizer/partial_response.rs', 'concretize', nargs=1)
+    for fn in (f, g, h):
+        ctx.use(fn)
+    ex = ctx.new_exec('core')
+    ex.stub(r'is_authorized_core_internal$', lambda ex, st, c, A: Agg('struct', '~internal', None, list(A)), 'is_authorized_core_internal (term)')
+    ex.stub(r'Evaluator::<.*>::new$', lambda ex, st, c, A: Agg('struct', '~Evaluator::new', None, list(A)), 'Evaluator::new (term)')
+    ex.stub(r'<.*PartialResponse as Into<.*Response>>::into$|<.*Response as From<.*PartialResponse>>::from$', lambda ex, st, c, A: Agg('struct', '~Response::from', None, list(A)), 'Response::from(PartialResponse) (term)')
+    ex.stub(r'<.*Request as Clone>::clone$', lambda ex, st, c, A: ex.read(st, A[0].fid, A[0].place), 'Request::clone (identity)')
+    auth = Opaque('Authorizer', 'authorizer')
+    ext = ex.opaque_field(auth, None, 0, "&Extensions<'_>")
+    q, pset, ents = Opaque('ast::request::Request', 'q'), Opaque('ast::policy_set::PolicySet', 'pset'), Opaque('entities::Entities', 'entities')
+    outs = ex.run(f, [Ref(0, ('local', 'A')), q, Ref(0, ('local', 'PS')), Ref(0, ('local', 'ES'))], heap={'A': auth, 'PS': pset, 'ES': ents})
+    ctx.absorb(ex)
+    good = len(outs) == 1 and outs[0].kind == 'ret'
+    detail = ''
+    if good:
+        v = outs[0].val
+        detail = repr(v)[:400]
+        try:
+            inner = v.fields[0]                       # ~internal[&self, &eval, q, &pset]
+            st = outs[0].st
+            evv = ex.read(st, inner.fields[1].fid, inner.fields[1].place)
+            good = v.name == '~Response::from' and inner.name == '~internal' and inner.fields[2].id == q.id \
+                and ex.read(st, inner.fields[3].fid, inner.fields[3].place).id == pset.id \
+                and evv.name == '~Evaluator::new' and evv.fields[0].id == q.id and ex.read(st, evv.fields[1].fid, evv.fields[1].place).id == ents.id
+        except (AttributeError, IndexError, NotEncoded):
+            good = False
+    ctx.decide('Authorizer::is_authorized/wiring: concretize(internal(Evaluator::new(q, entities, ext), q, pset))', [z3.Not(z3.BoolVal(bool(good)))], ex=ex, sample={'result': detail},
+               on_sat=lambda m: replay_policies(ctx, 'Authorizer::is_authorized', 'authorizer.rs: is_authorized / is_authorized_core wiring', [('permit', 'true'), ('forbid', 'error')], 'entry point wiring'))
+
+
 def run(ctx):
-    for fn in (loop_step, pr_new, response_from):
+    for fn in (entry_wiring, policy_evaluation, loop_prefix, loop_step, pr_new, response_from):
         ctx.guarded(fn.__name__, lambda fn=fn: fn(ctx))
     ctx.bounds += ['loop step: one iteration from an arbitrary (havocked) state => every loop length; decision tables: all 2^6 bucket-emptiness states',
                    'replay concretises outcomes as static policies: true/false literal, integer overflow (error), unknown("u") (residual)']
